@@ -420,7 +420,7 @@ def _seq_worker(item):
 
 
 def run(rec, tier, seed):
-    plan = {'quick': {'bin': 2, 'ter': 2}, 'thorough': {'bin': 4, 'ter': 3}}[tier]
+    plan = {'quick': {'bin': 3, 'ter': 2}, 'thorough': {'bin': 4, 'ter': 4}}[tier]
     fix = True
     for sysname in ('bin', 'ter'):
         fix = bfs(rec, sysname) and fix
